@@ -34,7 +34,7 @@ struct C05 : public Driver {
         uint64_t seed = runSeed(verifSeed, "C05", run);
         Rng root(seed); Rng g = root.fork("gen"), gf = root.fork("forms");
         Json p = Json::object(); p["property"] = "C05"; p["run"] = (long long)run; p["seed"] = hex64(seed); p["tier"] = tier;
-        DocCfg dc; dc.maxNodes = (int)g.range(6, 50); dc.dtd = g.chance(1, 4); dc.ns = g.chance(3, 4); dc.ssPI = true; dc.manyNames = g.chance(1, 10); if (dc.manyNames) dc.maxNodes = 80;
+        DocCfg dc; dc.maxNodes = (int)g.range(6, 50); dc.dtd = g.chance(1, 4); dc.ns = g.chance(3, 4); dc.ssPI = true; dc.manyNames = g.chance(1, 10); if (dc.manyNames) dc.maxNodes = 80; dc.rebind = g.chance(1, 5);
         GenDoc d = genDoc(g, dc);
         // features that expose the two documented wrapper data-model deviations are kept to a small share of the runs
         std::set<std::string> ex; if (!g.chance(1, 12)) ex.insert("ns-axis"); if (!g.chance(1, 12)) ex.insert("doctype-node"); ex.insert("genid"); ex.insert("doe");
@@ -70,7 +70,7 @@ struct C05 : public Driver {
             unsigned k = (unsigned)gf.below(10);
             if (k == 0) form("file", gf.chance(1, 3) ? "pi" : "file", "filename", "capi");                      // XalanTransformToFile / ToData
             else if (k == 1) form("file", "file", gf.chance(1, 2) ? "capi-data" : "capi-handler", "capi");
-            else if (k == 2 && run % 30 == 7) form("file", gf.chance(1, 4) ? "pi" : "file", "filename", "cli");
+            else if (k == 2 && run % 6 == 1) form("file", gf.chance(1, 4) ? "pi" : "file", "filename", "cli");
             else if (k < 5) form("stream", "stream", gf.pick(tf), "cpp");                                      // differs from the reference in target/perturbation only
             else { std::string a = gf.pick(sf), b = gf.pick(ssf); if (b == "pi") a = "file";   // the xml-stylesheet PI is resolved against the document's real location
                 form(a, b, gf.pick(tf), "cpp"); }
